@@ -28,6 +28,22 @@ type workerReq struct {
 	Tier   string          `json:"tier,omitempty"`
 	WantSc bool            `json:"want_sc,omitempty"`
 	Sc     json.RawMessage `json:"sc,omitempty"`
+	Warm   []IsoJob        `json:"warm,omitempty"` // op "multi": executed first, results discarded
+}
+
+// IsoJob names a generated scenario by batch index and seed.
+type IsoJob struct {
+	Idx  int    `json:"idx"`
+	Seed uint64 `json:"seed"`
+}
+
+// IsoSpec is the replayable form of an isolation violation: the main scenario gives ExpectDigest when
+// it is the first thing a fresh process executes, and another digest after the warm-up scenarios.
+type IsoSpec struct {
+	Tier         string   `json:"tier"`
+	Warm         []IsoJob `json:"warm"`
+	Main         IsoJob   `json:"main"`
+	ExpectDigest string   `json:"expect_digest_in_fresh_process"`
 }
 
 // WorkerMain serves requests on stdin until EOF. A worker is an OS process of its own because
@@ -55,6 +71,15 @@ func WorkerMain(id string) {
 			var sc json.RawMessage
 			res := &RunResult{Seed: req.Seed}
 			switch req.Op {
+			case "multi":
+				for _, w := range req.Warm {
+					wr := &RunResult{Seed: w.Seed}
+					c.Exec(genScenario(c, w.Idx, w.Seed, req.Tier), wr)
+					if wr.Poisoned {
+						os.Exit(0)
+					}
+				}
+				sc = genScenario(c, req.Idx, req.Seed, req.Tier)
 			case "gen":
 				sc = genScenario(c, req.Idx, req.Seed, req.Tier)
 			case "exec":
@@ -504,6 +529,8 @@ func Supervise(c *Check, o Opts) int {
 	found := map[string]*foundViolation{}
 	infra := []string{}
 	warnings := []string{}
+	histOf := map[uint64][]IsoJob{} // seed -> what its worker had executed before it
+	isoSpecs := map[uint64]IsoSpec{}
 	checkHash := HashStr(c.ID)
 
 	var wg sync.WaitGroup
@@ -521,7 +548,12 @@ func Supervise(c *Check, o Opts) int {
 				return
 			}
 			defer func() { p.kill() }()
+			var hist []IsoJob
 			for j := range jobs {
+				mu.Lock()
+				histOf[j.seed] = append([]IsoJob(nil), hist...)
+				mu.Unlock()
+				hist = append(hist, IsoJob{Idx: j.idx, Seed: j.seed})
 				req := workerReq{Op: "gen", Seed: j.seed, Idx: j.idx, Tier: o.Tier, WantSc: j.idx < 3 || j.idx == 20}
 				oc := p.call(req, watchdog)
 				if oc.died {
@@ -548,6 +580,7 @@ func Supervise(c *Check, o Opts) int {
 						}
 					}
 					p, err = spawn(c, raceDir)
+					hist = nil
 					if err != nil {
 						mu.Lock()
 						infra = append(infra, "respawn: "+err.Error())
@@ -614,11 +647,73 @@ func Supervise(c *Check, o Opts) int {
 				agg.selfChecked++
 				if oc.res.Digest != want {
 					selfBad++
-					infra = append(infra, fmt.Sprintf("nondeterminism: seed %d digest %s vs %s", seed, want, oc.res.Digest))
+					if c.Isolation > 0 {
+						// for these checks a digest that depends on process history is decided by the isolation
+						// re-check below (a property violation if the warm-up replay reproduces it)
+						warnings = append(warnings, fmt.Sprintf("digest of seed %d differs between the batch and a fresh process (%s vs %s)", seed, want, oc.res.Digest))
+					} else {
+						infra = append(infra, fmt.Sprintf("nondeterminism: seed %d digest %s vs %s", seed, want, oc.res.Digest))
+					}
 				}
 			}
 			if p != nil {
 				p.kill()
+			}
+		}
+	}
+
+	// isolation re-check: a sample of scenarios is executed again as the first thing a fresh process
+	// does; the outcome log must be the same as in the worker that had executed other scenarios
+	// before. A difference means state kept at package level lets earlier evaluations (other VMs)
+	// influence later ones.
+	if c.Isolation > 0 && agg.runs > 0 {
+		var cand []uint64
+		for seed, h := range histOf {
+			if len(h) >= 1 {
+				if _, ok := agg.digests[seed]; ok {
+					cand = append(cand, seed)
+				}
+			}
+		}
+		sort.Slice(cand, func(i, j int) bool { return cand[i] < cand[j] })
+		n := c.Isolation
+		if o.Tier == "thorough" {
+			n *= 5
+		}
+		step := 1
+		if len(cand) > n {
+			step = len(cand) / n
+		}
+		idxOf := map[uint64]int{}
+		for i := 0; i < runs; i++ {
+			idxOf[Mix(o.Seed, checkHash, uint64(i))] = i
+		}
+		isoFound := false
+		for k := 0; k < len(cand) && !isoFound; k += step {
+			seed := cand[k]
+			p, err := spawn(c, raceDir)
+			if err != nil {
+				break
+			}
+			oc := p.call(workerReq{Op: "gen", Seed: seed, Idx: idxOf[seed], Tier: o.Tier}, 3*watchdog)
+			p.kill()
+			if oc.died {
+				continue
+			}
+			agg.isoChecked++
+			if oc.res.Digest == agg.digests[seed] {
+				continue
+			}
+			// confirm with the explicit warm-up list in one fresh process
+			spec := IsoSpec{Tier: o.Tier, Warm: histOf[seed], Main: IsoJob{Idx: idxOf[seed], Seed: seed}, ExpectDigest: oc.res.Digest}
+			if got, ok := runIso(c, raceDir, spec, 5*watchdog); ok && got != spec.ExpectDigest {
+				spec = minimiseIso(c, raceDir, spec, watchdog)
+				sc := MustJSON(spec)
+				addFound(found, Violation{Sig: "isolation:outcome-depends-on-earlier-evaluations", Msg: fmt.Sprintf("scenario (seed %d) produces outcome log %s when it is the first thing a process executes and %s after %d other scenario(s) ran in the same process: package-level state lets unrelated VMs' earlier evaluations change its results", seed, spec.ExpectDigest, got, len(spec.Warm))}, seed, sc)
+				isoSpecs[seed] = spec
+				isoFound = true
+			} else {
+				infra = append(infra, fmt.Sprintf("nondeterminism: seed %d gives %s in the batch, %s in a fresh process, and the warm-up replay does not reproduce it", seed, agg.digests[seed], oc.res.Digest))
 			}
 		}
 	}
@@ -653,13 +748,17 @@ func Supervise(c *Check, o Opts) int {
 	for _, fv := range unknown {
 		sc := fv.Scenario
 		steps := 0
-		if !o.NoMin && c.Shrink != nil && sc != nil && minimised < 4 {
+		if !o.NoMin && c.Shrink != nil && sc != nil && minimised < 4 && !strings.HasPrefix(fv.Sig, "isolation:") {
 			// minimise the first few signatures only: a broken tree can produce dozens
 			minimised++
 			sc, steps = minimise(c, raceDir, sc, fv.Sig, 40*time.Second, watchdog)
 		}
 		path := filepath.Join(o.VerifDir, "replays", fmt.Sprintf("%s-%d.json", c.ID, fv.Seed))
 		rf := ReplayFile{Property: c.ID, Sig: fv.Sig, Msg: fv.Msg, Seed: fv.Seed, Tier: o.Tier, Scenario: sc, ShrinkSteps: steps}
+		if spec, ok := isoSpecs[fv.Seed]; ok && strings.HasPrefix(fv.Sig, "isolation:") {
+			rf.Isolation = &spec
+			rf.Scenario = genScenario(c, spec.Main.Idx, spec.Main.Seed, spec.Tier)
+		}
 		b, _ := json.MarshalIndent(rf, "", " ")
 		os.WriteFile(path, b, 0o644)
 		fmt.Printf("VIOLATION property=%s replay=%s\n", c.ID, path)
@@ -718,6 +817,7 @@ type aggregate struct {
 	inconcl       int
 	flakyDeaths   int
 	selfChecked   int
+	isoChecked    int
 }
 
 func (a *aggregate) add(r *RunResult, idx int) {
@@ -760,6 +860,49 @@ type ReplayFile struct {
 	Tier        string          `json:"tier"`
 	ShrinkSteps int             `json:"shrink_steps"`
 	Scenario    json.RawMessage `json:"scenario"`
+	Isolation   *IsoSpec        `json:"isolation,omitempty"`
+}
+
+// runIso executes warm-ups then the main scenario in one fresh process and returns the main digest.
+func runIso(c *Check, raceDir string, spec IsoSpec, watchdog time.Duration) (string, bool) {
+	p, err := spawn(c, raceDir)
+	if err != nil {
+		return "", false
+	}
+	defer p.kill()
+	oc := p.call(workerReq{Op: "multi", Warm: spec.Warm, Seed: spec.Main.Seed, Idx: spec.Main.Idx, Tier: spec.Tier}, watchdog)
+	if oc.died {
+		return "", false
+	}
+	return oc.res.Digest, true
+}
+
+// minimiseIso shrinks the warm-up list while the main scenario's digest still differs.
+func minimiseIso(c *Check, raceDir string, spec IsoSpec, watchdog time.Duration) IsoSpec {
+	deadline := time.Now().Add(60 * time.Second)
+	differs := func(w []IsoJob) bool {
+		s2 := spec
+		s2.Warm = w
+		got, ok := runIso(c, raceDir, s2, 5*watchdog)
+		return ok && got != spec.ExpectDigest
+	}
+	chunk := len(spec.Warm) / 2
+	for chunk >= 1 && time.Now().Before(deadline) {
+		removed := false
+		for i := 0; i+chunk <= len(spec.Warm) && time.Now().Before(deadline); {
+			w := append(append([]IsoJob{}, spec.Warm[:i]...), spec.Warm[i+chunk:]...)
+			if differs(w) {
+				spec.Warm = w
+				removed = true
+			} else {
+				i += chunk
+			}
+		}
+		if !removed || chunk == 1 {
+			chunk /= 2
+		}
+	}
+	return spec
 }
 
 func execOnce(c *Check, raceDir string, sc json.RawMessage, watchdog time.Duration) (sigs map[string]string, ok bool) {
@@ -791,6 +934,19 @@ func replay(c *Check, o Opts, raceDir string, findings []Finding) int {
 	if err := json.Unmarshal(b, &rf); err != nil {
 		fmt.Fprintln(os.Stderr, "infrastructure: bad replay file:", err)
 		return 2
+	}
+	if rf.Isolation != nil {
+		got, ok := runIso(c, raceDir, *rf.Isolation, 10*time.Minute)
+		if !ok {
+			fmt.Fprintln(os.Stderr, "infrastructure: could not run the isolation replay")
+			return 2
+		}
+		if got != rf.Isolation.ExpectDigest {
+			fmt.Printf("VIOLATION property=%s replay=%s\n  sig=%s\n  after %d warm-up scenario(s) the main scenario's outcome log is %s; first in a fresh process it is %s\n", c.ID, o.Replay, rf.Sig, len(rf.Isolation.Warm), got, rf.Isolation.ExpectDigest)
+			return 1
+		}
+		fmt.Printf("replay of %s did not reproduce sig=%s (outcome log %s in both situations)\n", o.Replay, rf.Sig, got)
+		return 0
 	}
 	sigs, ok := execOnce(c, raceDir, rf.Scenario, 5*time.Minute)
 	if !ok {
@@ -893,6 +1049,7 @@ func writeEvidence(c *Check, o Opts, a *aggregate, nviol, nknown int, wall float
 		"inconclusive":             a.inconcl,
 		"known_findings_printed":   nknown,
 		"determinism_rechecked":    a.selfChecked,
+		"isolation_rechecked":      a.isoChecked,
 		"stopped_by_wall_cap":      stopped,
 		"components_real":          c.Real,
 		"components_stub":          c.Stub,
